@@ -35,6 +35,10 @@ PRODUCERS = {
 }
 
 
+def H_short(p):
+    return "::".join(p.split("::")[-2:])
+
+
 def check(rep, F, tier, replay=None):
     table = common.load_table("c14_allow.json")["entries"]
     tab = {(e["fn"], e["kind"], e["detail"]): e for e in table}
@@ -126,6 +130,20 @@ def check(rep, F, tier, replay=None):
                     rep.violation("INT-range", "update_mint_value|store", "MintBuilder::update_mint_value stores an Int payload that is neither the given amount nor the range-checked sum", {"origins": sorted(o)[:10]})
     # ORDER tables
     order_tables(rep, F)
+    # ROUND-prim: a function that promises a rounding mode divides with the primitive of that name (truncating `/` differs from
+    # floor for operands of opposite sign; BigNum is unsigned, there `/` IS floor and is judged by the E3 inventory)
+    rep.rule("ROUND-prim", "BigInt::div_floor / div_ceil divide through num-integer's div_floor / div_ceil and not through `/` (truncation toward zero)")
+    for key, want in (("BigInt::div_floor", "div_floor"), ("BigInt::div_ceil", "div_ceil")):
+        fid = find_fn(rep, F, key)
+        if not fid:
+            continue
+        rep.inst("ROUND-prim")
+        tos = [(c.to or "") for c in F.calls(fid)]
+        names = {t.rsplit("::", 1)[-1] for t in tos}
+        other = "div_floor" if want == "div_ceil" else "div_ceil"
+        raw = [t for t in tos if "std::ops::Div" in t or "std::ops::Rem" in t or t.endswith("::div_rem") or t.endswith("::div_euclid")]
+        if want not in names or other in names or raw:
+            rep.violation("ROUND-prim", "%s|%s" % (key, want), "%s must divide with %s; it calls %s" % (key, want, sorted(set(n for n in names if n.startswith("div")) | {H_short(r) for r in raw}) or "nothing"), {})
     return rep.finish(
         EXPLANATION,
         ["BigNum's checked_* delegate to u64::checked_* (std)", "num-bigint arithmetic is exact", "wasm32 makes usize 32-bit: casts involving usize are marked target dependent in the table"],
